@@ -259,8 +259,10 @@ def execute(schedule) -> Result:
         if kind_ != "float64":
             res.stats[f"fault:matrix_{kind_}"] += 1
     first = {}  # op index -> (kind, est index, X name, explain, value bytes, params snapshot at that time)
-    seam = MinimizeSeam(python.minimize)
-    python.minimize = seam
+    seam = MinimizeSeam(getattr(python, "minimize", None) or __import__("scipy.optimize", fromlist=["minimize"]).minimize)
+    had_name = hasattr(python, "minimize")
+    if had_name:
+        python.minimize = seam  # seam: the name the module imported from scipy; if a refactor no longer has it, fits simply run for real
     res.stats[f"probe:controls={len(d['control'])}"] += 1
     res.stats[f"probe:sensors={len(d['sensors'])}"] += 1
     res.stats[f"probe:k={cfg['innovation_filtering']}"] += 1
@@ -405,7 +407,8 @@ def execute(schedule) -> Result:
             res.ops += 1
             res.log.append(f"{i} {kind} snap={hash_s(snapshot(est))}")
     finally:
-        python.minimize = seam.real
+        if had_name:
+            python.minimize = seam.real
     return res
 
 
